@@ -129,10 +129,13 @@ structure RenderCtx where
 
 def RenderCtx.rid (c : RenderCtx) (j : Nat) : String := padId c.w (c.idOf j)
 
+/-- the `style` list of `job.dot_style()` -/
+def styleList (c : RenderCtx) (j : Nat) : List String :=
+  (if c.t.isSched j then [] else ["rounded"]) ++ (if c.t.forever j then ["dashed"] else [])
+
 /-- the (key, raw value) pairs of `job.dot_style()`, in dictionary order -/
 def styleAttrs (c : RenderCtx) (j : Nat) : List (String × String) :=
-  let styles := (if c.t.isSched j then [] else ["rounded"]) ++ (if c.t.forever j then ["dashed"] else [])
-  [("style", ",".intercalate styles),
+  [("style", ",".intercalate (styleList c j)),
    ("label", c.rid j ++ ": " ++ c.label j),
    ("shape", "box")] ++
   (if c.t.critical j then [("color", "red"), ("penwidth", "2")] else [("penwidth", "0.5")])
